@@ -314,6 +314,15 @@ def run(index: RepoIndex, rep) -> None:
             'C04.R5', OUTER, f'OuterEnv.{prop}', m.node.lineno,
             '; '.join(src(r.stmt) for r in rets),
             f'OuterEnv.{prop} does not return {want}', f'convert {prop}')
+        if prop == 'state':
+            obs_reads = [n for n in ast.walk(node) if isinstance(n, ast.Attribute)
+                         and n.attr == 'observation'
+                         and src(w.expand(n.value)) == 'self.inner_env']
+            rep.check(not obs_reads, 'C04.R5', OUTER, 'OuterEnv.state', m.node.lineno,
+                      '; '.join(src(n) for n in obs_reads) or 'OuterEnv.state',
+                      'reading the state also reads inner_env.observation, which generates (and '
+                      'memoises) an observation: a pure state read consumes randomness',
+                      'state read does not touch the observation')
         raises = [e for e in w.events if e.kind == 'raise']
         rep.check(any(none_truth(gexp(w, e.guard), REP) == {True: True, False: False}
                       for e in raises),
